@@ -29,22 +29,10 @@ RULE = ("four streams. hist: histories of 5-30 requests over ONE engine; one his
         "two variables mapped, one of them renamed.")
 
 KNOWN_TEXT = {
-    "mapper-name-collision":
-        "astnormalization variablesMappingVisitor: generateUnusedVariableMappingName only avoids names already in the mapping, "
-        "so a variable that is NOT renamed (Upload-typed, or a definition left behind when the list/object literal using it was "
-        "extracted) collides with a handed-out name: `query($a: Upload, $x: String){ echo(f: $a, s: $x) }` and "
-        "`query($a: String, $b: String){ echo(o: {k: $a}, s: $b) }` with {\"a\":\"x\",\"b\":\"y\"} are rejected (two definitions "
-        "named a: \"variable: a must be unique per operation\" / Variable \"$c\" got invalid value) while the same requests with "
-        "variables named $p, $q succeed; even `{ echo(o: {k: \"k\"}, s: \"x\", f: \"file1\") }` fails (extraction names literals a, b, c)",
     "planner-reuse-stale-state":
         "plan.Visitor keeps per-operation state across Plan calls (fieldPlanners / plannerFields are created in NewVisitor and "
         "never reset): a plan.Planner that planned another operation before panics (index out of range in assignDefer) or yields "
         "a plan with extra CoordinateDependencies; ExecutionEngine.getCachedPlan creates a planner per plan and is not affected",
-    "minify-fragment-names-map-order":
-        "astminify.Minifier.apply collects replacements by ranging over a map and sorts them stably by (depth, type name) only: "
-        "two repeated selection sets on one type at one depth get their fragment names (A, B) in map order, so with "
-        "MinifySubgraphOperations the subgraph request text of one plan differs between planner runs (same meaning; "
-        "`{ a {id alphaOwn x1: alphaOwn x2: alphaOwn} aTwo {..same..} as {id y1: id y2: id y3: id y4: alphaOwn} aById(id:\"a0\") {..same..} }`)",
     "list-literal-variable-default-dropped":
         "variable extraction replaces a list/object literal that contains a variable by a new variable whose value is built "
         "from the supplied variables only: `query($v: String = \"hi\"){ topProducts { fmt(tags: [$v, \"z\"]) } }` with {} sends "
@@ -56,15 +44,6 @@ def classify(case, detail):
     d = detail
     if d.startswith("plan_deterministic/reused"):
         return "planner-reuse-stale-state"
-    if (d.startswith("plan_deterministic/fresh") or d.startswith("requests_deterministic") or d.startswith("cache_hit_same_plan")) \
-            and " minify=t expanded_equal=t " in d:
-        return "minify-fragment-names-map-order"
-    if d.startswith("mapper_spec collision=true"):
-        return "mapper-name-collision"
-    if d.startswith("spelling_transparent") and re.search(r"\|\| deviating: style=\w+ coll=t ", d) and " exec_error=t " in d:
-        return "mapper-name-collision"
-    if d.startswith("mono_agrees") and " exec_error=t " in d and re.search(r"\|\| style=\w+ coll=t ", d):
-        return "mapper-name-collision"
     if d.startswith("normalize_semantic"):
         m = re.search(r'op="(.*?)" vars=', d)
         op = m.group(1) if m else ""
